@@ -201,6 +201,21 @@ def run(chk):
         chk.case(key=src, nontrivial=True)
         if r["status"] != "ok" or [unhx(x) for x in r["literals"]] != ["%s and %s_x // %s" % (name, name, name)] or "t = 9;" not in unhx(r["out"]):
             chk.fail("macro-inside-string", "a macro name inside a string literal was touched (or the use outside was not expanded)", {"source": src, "out": unhx(r.get("out")), "literals": r.get("literals")})
+    # ---- a command-line definition behaves like the #define: the whole compiler (its own -D parsing), values
+    #      with every character a C expression can contain, including `=` ----
+    VALUES = ["1", "v==5", "v == 3", "v>=2", "(v!=3)", "v<=3&&v!=0", "3", "", "(v=7)", "v==3==1", "w=v", "0x10", "'='", "v+1"]
+    for val in VALUES:
+        for use in ("if (MATCH) r = 1; else r = 2;", "r = MATCH;", "r = (MATCH) + 1;", "MATCH;"):
+            if val == "" and use != "MATCH;":
+                continue
+            body = "unsigned char v, w, r;\nvoid main() { v = 3; %s }\n" % use
+            a = h.compile(body, 0, defines=["MATCH=" + val] if val != "" else ["MATCH"])
+            b = h.compile("#define MATCH %s\n" % val + body, 0)
+            chk.case(key=(val, use), nontrivial=True)
+            chk.count("dash_d_cases")
+            if a["status"] != b["status"] or (a["status"] == "ok" and a["out"] != b["out"]):
+                chk.fail("dash-d-differs-from-define", "-DMATCH=%s and `#define MATCH %s` compile `%s` differently" % (val, val, use),
+                         {"source": body, "define": "MATCH=" + val, "with_D": (unhx(a.get("out", "")) or a["status"])[-400:], "with_define": (unhx(b.get("out", "")) or b["status"])[-400:]})
     h.close(); m.close()
     return chk.finish(level="proof", obligations=obligations, trusted_base=TRUSTED,
                       checker_cmd="cd /verif/lean && lake build CV.Props.C08 && lake env lean .lake/audit/C08_audit.lean",
